@@ -1,10 +1,25 @@
 """C20 — broker connection (broker/client.go): see coq/Broker/Conn.v, ConnSpec.v, coq/Props/C20.v."""
 import os, sys
 sys.path.insert(0, os.path.dirname(os.path.abspath(__file__)))
-import _bc
+import _bc, _sys
 
 ASSUMPTIONS = _bc.ASSUMPTIONS
 
 
 def run(ck):
     _bc.run_bc(ck, "c20", set("c20_gate c20_single_connack c20_responses c20_tokens c20_acted_on c20_closes".split()))  # the last two added by the audit (audit/C20.md)
+    if ck.replay:
+        return
+    # whole broker with the real MemoryBackend.Authenticate (go/cmd/system c20): the connection-level check scripts Authenticate
+    ev, di, rule = ck.evaluations, ck.distinct, ck.rule
+    ex = _sys.run_sys(ck, "c20")
+    ck.evaluations = ev + ck.stats.get("direct_clauses_evaluated", 0)
+    ck.distinct = di + ck.stats.get("scenarios", 0)
+    ck.rule = rule + ("; plus whole broker (Engine + MemoryBackend over TCP loopback, go/cmd/system c20): raw CONNECTs with username in {absent, empty, u1, u2, unknown} x "
+                      "password in {absent, empty, p1, wrong} against Credentials {u1:p1, u2:''} and against no Credentials, each followed in the same write by "
+                      "SUBSCRIBE, PUBLISH (QoS 1) and PINGREQ: accepted iff the user is a key and the password the stored one (auth_decision), accepted connections "
+                      "fully served (requests_answered), refused ones get CONNACK 5 and nothing else, are closed, publish nothing, are never set up "
+                      "(nothing_after_refusal); each of the 14 other packet kinds first: closed without a byte in reply, no Authenticate call, a following "
+                      "CONNECT ignored (nothing_before_connect)")
+    if ex:
+        ck.samples = ck.samples[:4] + [l for l in ex if l.startswith("direct ")][:3]
